@@ -4,11 +4,11 @@ CONSTANTS
   FixFinal = TRUE
   FixSpillMin = TRUE
   FixLeftId = TRUE
-  FixEmptyMerge = TRUE
-  ShapeSet = "wide"
-  Sizes = {1, 3, 7}
-  Spills = {0, 3, 6, 12}
-  WPCs = {1, 2, 3}
+  FixEmptyMerge = FALSE
+  ShapeSet = "tiny"
+  Sizes = {1, 2, 7, 10}
+  Spills = {3}
+  WPCs = {2}
   Hdrs = {0, 2, 4}
   Ftrs = {0, 2}
   MinParts = {1}
